@@ -235,7 +235,7 @@ def check(prop, tier, seed, budget=None):
             broken.append({"obligation": "lake build " + " ".join(bad or cfg["lean_modules"]), "detail": errs})
         # supplementary: concrete witnesses of every hypothesis bundle (Proofs/NonVac.lean imports most of the development; a failure here
         # is recorded in the evidence, it is not an obligation of this property)
-        nv_rc, nv_out = lake_build(["Heathcliff.Proofs.NonVac", "Heathcliff.Proofs.C06YW", "Heathcliff.Proofs.C04RW", "Heathcliff.Proofs.GenRnsW"]) if not broken else (1, "skipped: an obligation of the property is already broken")
+        nv_rc, nv_out = lake_build(["Heathcliff.Proofs.NonVac", "Heathcliff.Proofs.C06YW", "Heathcliff.Proofs.C04RW", "Heathcliff.Proofs.GenRnsW", "Heathcliff.Proofs.GenDwtW"]) if not broken else (1, "skipped: an obligation of the property is already broken")
         nv_src = strip_comments(open(os.path.join(LEAN, "Heathcliff", "Proofs", "NonVac.lean")).read())
         if any(FORBIDDEN.search(l) for l in nv_src.split("\n")): nv_rc, nv_out = 1, "error: forbidden construct in NonVac.lean"
         nonvac = "built (lake build Heathcliff.Proofs.NonVac)" if nv_rc == 0 else "NOT built: " + " | ".join(re.findall(r"^error: (.*)$", nv_out, flags=re.M)[:3] or [nv_out[-200:]])
@@ -369,7 +369,7 @@ def setup():
         if rc != 0: return 1
         rc, out = cargo_build(); print(out[-1500:])
         if rc != 0: return 1
-        rc, out = lake_build(["Heathcliff.Proofs.NonVac", "Heathcliff.Proofs.C06YW", "Heathcliff.Proofs.C04RW", "Heathcliff.Proofs.GenRnsW"]); print("non-vacuity witnesses:", "built" if rc == 0 else "NOT built (supplementary, not fatal)")
+        rc, out = lake_build(["Heathcliff.Proofs.NonVac", "Heathcliff.Proofs.C06YW", "Heathcliff.Proofs.C04RW", "Heathcliff.Proofs.GenRnsW", "Heathcliff.Proofs.GenDwtW"]); print("non-vacuity witnesses:", "built" if rc == 0 else "NOT built (supplementary, not fatal)")
     return 0
 
 
